@@ -33,12 +33,74 @@ def owner_fn(toks, name):
     return cands[0]
 
 
+SHARED = {}
+
+
+def shared_helpers(repo):
+    """Generic helpers of src/parser/utils.rs that take the `MessageParser`: name -> (type parameters, calls)."""
+    out = {}
+    path = os.path.join(repo, "src/parser/utils.rs")
+    try:
+        toks = lex(open(path, encoding="utf-8").read())
+    except OSError:
+        return out
+    for i in range(len(toks) - 1):
+        if is_id(toks[i], "fn") and toks[i + 1].kind == "id":
+            fname = toks[i + 1].text
+            for so, fo, fc in find_fns(toks, fname, i, len(toks)):
+                sig = text(toks, so, fo)
+                if "parser : & mut" in sig and "MessageParser" in sig:
+                    g = re.match(r"fn \w+ < ([^(]*?) > \(", sig)
+                    params = [x.split(":")[0].strip() for x in g.group(1).split(",")] if g else []
+                    try:
+                        out[fname] = (params, extract_calls(toks, fo, fc, f"utils::{fname}", {}))
+                    except Untranslatable as e:
+                        out[fname] = (params, e)       # reported only if a message type calls it
+                break
+    return out
+
+
 def extract_calls(toks, lo, hi, name, helpers):
-    """All `parser . METHOD :: < TY > ( "TAG" )` between lo and hi, inlining `Self::helper(&mut parser)` calls."""
+    """All `parser . METHOD :: < TY > ( "TAG" )` between lo and hi, inlining `Self::helper(&mut parser)` calls and
+    calls of the generic helpers of src/parser/utils.rs (`helper::<A, B>(&mut parser)`, type parameters substituted)."""
     calls = []
     i = lo
     while i < hi:
         t = toks[i]
+        if t.kind == "id" and t.text in SHARED and is_p(toks[i + 1], "::") and is_p(toks[i + 2], "<"):
+            params, inner = SHARED[t.text]
+            if isinstance(inner, Untranslatable):
+                raise inner
+            j = i + 3
+            depth = 1
+            while depth:
+                if is_p(toks[j], "<"):
+                    depth += 1
+                elif is_p(toks[j], ">"):
+                    depth -= 1
+                j += 1
+            args = [a.strip() for a in "".join(x.text for x in toks[i + 3:j - 1]).split(",") if a.strip()]
+            if len(args) != len(params):
+                raise Untranslatable(f"{name}", f"{t.text} called with {len(args)} type arguments at line {t.line}")
+            if text(toks, j, j + 5) == "( & mut parser )":
+                k = j + 5
+            elif text(toks, j, j + 3) == "( parser )":
+                k = j + 3
+            else:
+                raise Untranslatable(f"{name}", f"{t.text} not applied to the parser at line {t.line}")
+            # `?` at the call, or the call is the tail expression of a helper whose own call site propagates
+            prop = is_p(toks[k], "?") or is_p(toks[k], "}")
+            sub = dict(zip(params, args))
+            for c in inner:
+                c2 = dict(c)
+                c2["ty"] = sub.get(c["ty"], c["ty"])
+                c2["propagated"] = c["propagated"] and prop
+                if not prop:
+                    c2["ctx"] = "helper-unpropagated"
+                c2["line"] = t.line
+                calls.append(c2)
+            i = k
+            continue
         if is_id(t, "parser") and is_p(toks[i + 1], ".") and toks[i + 2].kind == "id" and toks[i + 2].text in METHODS:
             m = toks[i + 2].text
             if not (is_p(toks[i + 3], "::") and is_p(toks[i + 4], "<")):
@@ -129,6 +191,8 @@ def one_type(path):
 
 def generate(repo, unt):
     layouts = []
+    SHARED.clear()
+    SHARED.update(shared_helpers(repo))
     for path in sorted(glob.glob(os.path.join(repo, "src/messages/mt*.rs"))):
         try:
             layouts.append(one_type(path))
